@@ -77,6 +77,20 @@ func init() {
 			case "client2", "disp2":
 				user("u0", use("u0"))
 				user("u1", use("u1"))
+			case "kill-accept":
+				// Kill while the host is announcing a brokered listener (AcceptAndServe not yet returned, nobody waits for it)
+				user("u0", use("u0"))
+				if proto != "netrpc" {
+					x.Go("host", func() {
+						if lc.gp.cb != nil {
+							lc.gp.cb.AcceptAndServe(41, func(o []grpc.ServerOption) *grpc.Server {
+								s := grpc.NewServer(o...)
+								grpctest.RegisterPingPongServer(s, &ppServer{tag: "41"})
+								return s
+							})
+						}
+					})
+				}
 			case "h2p", "p2h":
 				user("u0", func() {
 					use("u0")()
@@ -207,7 +221,7 @@ func init() {
 		Instances: func(tier string) []explore.Params {
 			var out []explore.Params
 			for _, proto := range []string{"netrpc", "grpc", "grpcmux"} {
-				for _, h := range []string{"seq", "client2", "disp2", "h2p", "p2h"} {
+				for _, h := range []string{"seq", "client2", "disp2", "h2p", "p2h", "kill-accept"} {
 					out = append(out, explore.Params{"proto": proto, "hist": h})
 				}
 			}
